@@ -293,4 +293,34 @@ def rule_peer_state_verified(ctx):
     ctx.ob(R, "single writer of the announced state", not others, "only the push_block_store_state handler writes a watch<BlockStoreState> in gossip" if not others else "the announced state is also written by %s" % others)
 
 
-RULES = [("C19.7", rule_peer_state_verified), ("C19.1", rule_only_available), ("C19.2", rule_atomic_accept), ("C19.3", rule_retry), ("C19.4", rule_completion), ("C19.6", rule_fetcher)]
+def rule_fetch_deadline(ctx):
+    R = "C19.8"
+    ctx.rule(R, "a handed-over request has a deadline: the get_block client bounds the call by cfg.rpc.get_block_timeout, and the configuration every node starts from (RpcConfig::default) sets it to Some(..) - with None a peer that accepts the request and stays silent holds it forever (the completion channel is never dropped, the request never returns to the queue)")
+    d = [f for f in ctx.F.by_qname.get("<zksync_consensus_network::config::RpcConfig as std::default::Default>::default", []) if not f.in_testonly()]
+    ctx.floor(R, "RpcConfig::default", len(d), 1)
+    for f in d:
+        T = ctx.T(f)
+        val = None
+        for b in f.blocks:
+            for st in b["s"]:
+                if st["k"] == "assign" and st["r"]["k"] == "agg" and str(st["r"].get("def", "")).endswith("config::RpcConfig"):
+                    t = T.rvalue(st["r"])
+                    for name, x in t[3]:
+                        if name == "get_block_timeout":
+                            val = x
+        ok = val is not None and val[0] == "agg" and val[2] == "Some"
+        ctx.ob(R, "default get_block_timeout", ok, "RpcConfig::default().get_block_timeout is Some(..)" if ok else "RpcConfig::default() sets get_block_timeout to %s: by default an accepted fetch request has no deadline" % (show(val)[:60] if val else "an unreadable value"), f.loc())
+    # the client applies it
+    users = []
+    for f in ctx.F.fns:
+        if f.in_testonly() or f.crate != "zksync_consensus_network" or "loadtest" in f.qname:
+            continue
+        T = ctx.T(f)
+        for c in T.calls():
+            if (c["q"] or "").endswith(("Option::map", "Option::map_or", "Option::map_or_else", "Option::and_then")) or (c["q"] or "").endswith("Ctx::with_timeout"):
+                if any(x[0] == "field" and x[2] == "get_block_timeout" for a in T.args_of(c) for x in subterms(a)):
+                    users.append((f, c))
+    ctx.ob(R, "deadline applied", bool(users), "the get_block client derives its call context from cfg.rpc.get_block_timeout (%d site(s))" % len(users) if users else "no call context is derived from cfg.rpc.get_block_timeout any more", users[0][0].loc(users[0][1]["t"].get("ln")) if users else None)
+
+
+RULES = [("C19.8", rule_fetch_deadline), ("C19.7", rule_peer_state_verified), ("C19.1", rule_only_available), ("C19.2", rule_atomic_accept), ("C19.3", rule_retry), ("C19.4", rule_completion), ("C19.6", rule_fetcher)]
